@@ -127,9 +127,18 @@ type Server struct {
 // StartServer creates a server with the raw codec and the Life service and
 // starts Serve on its own goroutine.
 func StartServer(h func(grpc.ServerStream) error, opts ...grpc.ServerOption) *Server {
+	return StartServerSetup(h, nil, opts...)
+}
+
+// StartServerSetup is StartServer with a hook that may register further
+// services on the grpc.Server before Serve is called (nil = none).
+func StartServerSetup(h func(grpc.ServerStream) error, setup func(*grpc.Server), opts ...grpc.ServerOption) *Server {
 	opts = append([]grpc.ServerOption{grpc.ForceServerCodec(RawCodec{})}, opts...)
 	s := &Server{Srv: grpc.NewServer(opts...), Lis: bufconn.Listen(1 << 20)}
 	s.Srv.RegisterService(ServiceDesc(h), nil)
+	if setup != nil {
+		setup(s.Srv)
+	}
 	go func() {
 		err := s.Srv.Serve(s.Lis)
 		s.mu.Lock()
